@@ -704,7 +704,11 @@ class Differ:
             or (lhs_is_scalar and rhs_is_scalar)
         )
         if same_types:
-            if lhs_is_dict:
+            if (lhs_is_dict or lhs_is_set) and len(lhs) < 1 and len(rhs) < 1:
+                # Two empty Hashes or Sets have no children to report on
+                self._diffs.append(DiffEntry(
+                    DiffActions.SAME, path, lhs, rhs, **kwargs))
+            elif lhs_is_dict:
                 self._diff_dicts(path, lhs, rhs)
             elif lhs_is_list:
                 self._diff_lists(path, lhs, rhs, **kwargs)
